@@ -94,6 +94,14 @@ func verifAssert(c bool, msg string) {
 
 func verifReach(tag string) {}
 
+// verifIte is a branch-free conditional for harness oracles (an ite term in the executor: no path fork).
+func verifIte(c bool, a, b int) int {
+	if c {
+		return a
+	}
+	return b
+}
+
 func verifBytes(n int) []byte {
 	v := verifNext("bytes")
 	b := make([]byte, n)
